@@ -338,7 +338,7 @@ def run_config(tier, depth, width):
     lines = [' '.join(rnd(depth - 1) for _ in range(rng.randint(1, width))) for _ in range(80 if tier == 'quick' else 500)]
     lines += ['G1 T1', 'T1 G1', 'G1 B(T1)', 'B(G1) T1', 'T1 T1', 'T1 B(T1) T2', 'I(G2;B(G1,T1)) T2', 'B(T1,B(G1,T1)) T1']
     got = native(lines)
-    s2 = z3.Solver()
+    s2 = z3.SolverFor('QF_BV')
     s2.add(*ex.assumptions)
     bad, used = [], 0
     t_val = time.time()
